@@ -142,6 +142,8 @@ fn large_cases(deadline: &Deadline) -> Stats {
         ("repeat(300) inside loop(i,300) with an accumulator", vec![Stmt::Let("acc".into(), lit(0)), Stmt::Loop("i".into(), lit(300), vec![Stmt::Let("acc".into(), bin(BinOp::Add, name("acc"), name("i"))), Stmt::Repeat(lit(3), vec![p(name("acc")), p(name("n")), Entry::X])])]),
         ("while counting to 1000", vec![Stmt::Let("c".into(), lit(0)), Stmt::While(bin(BinOp::Lt, name("c"), lit(1000)), vec![Stmt::Let("c".into(), bin(BinOp::Add, name("c"), lit(1))), Stmt::Row(vec![p(name("c")), l(0), Entry::X])])]),
         ("40 nested loops", deep),
+        ("600 000 passes of a while body without a row, then rows", vec![Stmt::Let("c".into(), lit(0)), Stmt::Row(vec![p(name("c")), l(0), Entry::X]), Stmt::While(bin(BinOp::Lt, name("c"), lit(600_000)), vec![Stmt::Let("c".into(), bin(BinOp::Add, name("c"), lit(1)))]), Stmt::Row(vec![p(name("c")), l(1), Entry::X]), Stmt::Row(vec![p(bin(BinOp::Add, name("c"), lit(1))), l(2), Entry::X])]),
+        ("a loop of 400 000 iterations without a row, then a row", vec![Stmt::Let("s".into(), lit(0)), Stmt::Loop("i".into(), lit(400_000), vec![Stmt::Let("s".into(), bin(BinOp::Add, name("s"), lit(1)))]), Stmt::Row(vec![p(name("s")), l(7), Entry::X])]),
         ("identifiers of 300 characters", vec![Stmt::Let(long.clone(), lit(5)), Stmt::Loop(format!("{long}x"), lit(3), vec![Stmt::Row(vec![p(bin(BinOp::Add, name(&long), name(&format!("{long}x")))), l(0), Entry::X])])]),
         ("2000 statements at top level", (0..2000).map(|j| if j % 2 == 0 { Stmt::Let("t".into(), lit(j)) } else { Stmt::Row(vec![p(name("t")), l(j % 7), Entry::X]) }).collect()),
     ];
